@@ -44,7 +44,8 @@ pub fn gen_spec(rng: &mut Rng, big: bool) -> Option<Spec> {
             2 => (2, "two"),
             3 => { // larger than the smallest prime (no fast plain lift), still far below Q when k>1
                 let mut c = qmin + 1 + rng.below(1000);
-                loop { if qs.iter().all(|&q| refm::gcd(q, c) == 1) && c >> 60 == 0 { break; } c += 1; }
+                // (a harness loop must terminate on its own: if no admissible t < 2^60 lies above the smallest prime, give the case up)
+                loop { if c >> 60 != 0 { return None; } if qs.iter().all(|&q| refm::gcd(q, c) == 1) { break; } c += 1; }
                 (c, "above_a_prime")
             }
             4 => { let mut c = rng.range(3, 1 << 16) | 1; while !qs.iter().all(|&q| refm::gcd(q, c) == 1) { c += 2; } (c, "odd_composite_or_prime") }
